@@ -470,6 +470,13 @@ func (e *Engine) Finish(pc *PropertyCheck, level, technique string, extraAssumpt
 					}
 				}
 			}
+			// a definite structural failure found by an enumeration (a new mint site without a
+			// classifying contract, a handler that never compares its authority, ...) is a
+			// violation even though no baseline entry names it: the enumeration is the claim
+			if !isKnown && o.Kind == "scan" && o.Status == "failed" {
+				report(o, "structural scan failure")
+				continue
+			}
 			// an obligation listed as a known finding that now fails in a way the listing does
 			// not describe is a different violation of the property
 			if !isKnown {
